@@ -13,6 +13,14 @@ OWNERS = {
     'C06': ['C06.'],
     'C07': ['C07.'],
     'C18': ['C18.'],
+    'C01': ['C01.'],
+    'C02': ['C02.'],
+    'C03': ['C03.'],
+    'C11': ['C11.'],
+    'C12': ['C12.'],
+    'C14': ['C14.'],
+    'C15': ['C15.'],
+    'C19': ['C19.'],
 }
 
 
@@ -310,11 +318,128 @@ def fam_dec(rule):
     return dict(run=run_dec, trace_module='Decoder_Trace', rule=rule, assumptions=DEC_ASSUME)
 
 
+# ----------------------------------------------------------------------------
+# Parser family: C01 C02 C03 C11 C12 C14 C15 C19
+# ----------------------------------------------------------------------------
+KINDS = ['HP', 'BHP', 'DHP', 'BDHP', 'BUP', 'GSAP', 'OSAP']
+TINY = {
+    'HP': dict(InputLen=2, HashBits=4), 'BHP': dict(InputLen=2, HashBits=3),
+    'DHP': dict(InputLen1=2, HashBits1=4, InputLen2=3, HashBits2=4),
+    'BDHP': dict(InputLen1=2, HashBits1=3, InputLen2=4, HashBits2=4),
+    'BUP': dict(InputLen=2, HashBits=3, BucketSize=2),
+    'GSAP': dict(MinMatchLen=2), 'OSAP': dict(MinMatchLen=2, MaxMatchLen=8),
+}
+
+
+def parser_ops_to_script(tid, ops, kind, tags=()):
+    begin = ops[0]
+    cfg = {k: v for k, v in begin.items() if k != 'op'}
+    cfg['kind'] = kind
+    cfg.update(TINY[kind])
+    return dict(tid=tid, comp='parser', cfg=cfg, ops=ops[1:], tags=list(tags) + [kind])
+
+
+def parser_mutants(evs):
+    if any(e['op'] in ('panic', 'timeout', 'livelock') for e in evs):
+        return
+    for i, e in enumerate(evs):
+        if e['op'] == 'parse' and e.get('lits') and e['err'] == '':
+            m = copy.deepcopy(evs)
+            m[i]['lits'][0] = (m[i]['lits'][0] + 1) % 256
+            yield 'flipbyte', m
+            break
+    for i, e in enumerate(evs):
+        if e['op'] == 'write' and e.get('n', 0) > 0 and any(x['op'] == 'parse' and x['err'] == '' for x in evs[i + 1:]):
+            m = copy.deepcopy(evs)
+            del m[i]
+            yield 'delevent', m
+            break
+
+
+def parser_features(evs):
+    f = set()
+    shrunk = False
+    kind = evs[0]['c']['kind']
+    for e in evs[1:]:
+        op = e['op']
+        if op in ('panic', 'timeout', 'livelock'):
+            f.add(op)
+        elif op == 'parse':
+            if e['seqs']:
+                f.add('match')
+                f.add('match_' + kind)
+                if shrunk:
+                    f.add('match_after_shrink')
+                if any(s[1] > s[2] for s in e['seqs']):
+                    f.add('overlapping_match')
+            if e['flags'] == 1 and e['seqs']:
+                f.add('ntl_with_match')
+        elif op == 'parsenil' and e['n'] > 0:
+            f.add('skip')
+        elif op == 'shrink' and e['delta'] > 0:
+            f.add('discard')
+            shrunk = True
+        elif op == 'reset' and e['err'] == '':
+            f.add('reset')
+            shrunk = False
+        elif op == 'readfrom':
+            if any(c[2] in ('reader', 'reader2') for c in e['calls']):
+                f.add('reader_fault')
+            if len(e['calls']) > 1:
+                f.add('short_reads')
+        elif op == 'write' and e['err'] == 'full':
+            f.add('buffer_full')
+        elif op in ('readat', 'byteat') and e['err'] != '':
+            f.add('probe_' + e['err'])
+    return f
+
+
+def run_parser(ctx, fam):
+    t = ctx.thorough()
+    log('[%s] design model check (ParserBuffer design + abstract parser refine the ParserSM envelope)' % ctx.prop)
+    vlib.tlc_mc(ctx, 'ParserBufMC.tla', 'ParserBufMC_T.cfg' if t else 'ParserBufMC.cfg', workers='16')
+    scripts = []
+    log('[%s] generating histories' % ctx.prop)
+    mix = fam['mix']
+    scale = 6 if t else 1
+    if mix.get('walks'):
+        walks = vlib.tlc_walks(ctx, 'ParserBufMC.tla', 'ParserBufWalk.cfg', num=mix['walks'] * scale, depth=45, seed=ctx.seed)
+        for i, ops in enumerate(walks):
+            kind = KINDS[i % len(KINDS)]
+            scripts.append(parser_ops_to_script('parser-walk-%d-%d' % (ctx.seed, i), ops, kind, ['tlc-walk']))
+    for gen, n in mix.get('go', []):
+        scripts += vlib.go_gen(ctx, gen, n * scale, ctx.seed)
+    scripts += corpus_scripts('parser')
+    env = {'VERIF_C11': '1' if ctx.prop == 'C11' else '0', 'VERIF_C12': '1' if ctx.prop == 'C12' else '0'}
+    return finish(ctx, fam, scripts, 'Parser_Trace', parser_mutants, parser_features, extra_env=env)
+
+
+PARSER_ASSUME = [
+    'TLC evaluates the ParserSM envelope (reference expander, well-formedness, maximality, brute-force longest previous match, cost-optimal parse) correctly; the recorder logs every call with arguments and results (binding self-test)',
+    'configuration constants are read back from the parser (ParserConfig/BufferConfig), zero request fields mean defaults',
+    'recorded streams are <= 600 bytes (<= 220 bytes and blocks <= 64 bytes where the cubic oracles of C11/C12 run): 32-bit position overflow and MiB windows are out of reach',
+]
+
+
+def fam_parser(rule, mix):
+    return dict(run=run_parser, trace_module='Parser_Trace', rule=rule, assumptions=PARSER_ASSUME, mix=mix)
+
+
+MIX_GENERAL = dict(walks=140, go=[('parser', 350), ('parser-runs', 49)])
+
 def fam_dbuf(rule):
     return dict(run=run_dbuf, trace_module='DecoderBuf_Trace', rule=rule, assumptions=DBUF_ASSUME)
 
 
 PROPS = {
+    'C01': fam_parser('histories = TLC random walks of ParserBufMC (Write/ReadFrom chunkings and reader errors/Parse/Parse(nil)/Shrink/Reset/probes) instantiated for all seven parsers with the smallest gram sizes + seeded Go histories (11 input classes incl. runs of 0x00, periodic, Fibonacci, Thue-Morse, de Bruijn; tiny geometries in every order relation; pump loop with random flags, skips, shrinks, resets); rule C01.expand: every block expands on top of what a decoder holds to exactly the next n input bytes; non-trivial = distinct script whose trace has a match, a discard, a skip, NoTrailingLiterals with a match, a reset or a reader fault', MIX_GENERAL),
+    'C02': fam_parser('same recordings as C01; rules C02.* on every emitted sequence at its absolute position (offset >= 1, <= WindowSize, <= position; length >= minimum, <= MaxMatchLen for OSAP; Aux = 0; LitLen sum <= literals)', MIX_GENERAL),
+    'C03': fam_parser('same recordings as C01; rules C03.* (ErrEmptyBuffer iff nothing unparsed, emptied block, 1 <= n <= min(BlockSize, unparsed), Block.Len() = n, NoTrailingLiterals leaves no trailing literals); contiguity is the C01 equation of the next block', MIX_GENERAL),
+    'C14': fam_parser('same recordings as C01 (10-30% nil blocks in a third of the scripts); rules C14.n, C14.empty_iff, and C14.block_after_skip = the round-trip equation for every block parsed after a skipped one', MIX_GENERAL),
+    'C15': fam_parser('same recordings as C01 incl. probes (ReadAt/ByteAt at Off-2..Off+1 and end-2..end+1), Reset with caller slices of capacity len, len+3, len+7, len+8, len+20; rules C15.* (write_n, write_full_iff, readfrom_*, shrink_delta, reset_err, readat_*, byteat, no_panic)', MIX_GENERAL),
+    'C19': fam_parser('recordings: run generator (every byte class incl. 0x00, runs of 32..432 bytes crossing block and buffer boundaries, WindowSize 1/2) + the C01 generators; rules C19.right_maximal, C19.left_maximal (BHP, BDHP), C19.run_literals', dict(walks=70, go=[('parser-runs', 280), ('parser', 210)])),
+    'C12': fam_parser('recordings: GSAP only, histories without Parse(nil), blocks <= 64 bytes, buffers <= 130 bytes, half of them with BufferSize <= WindowSize, several fills / Shrinks / Resets; rules C12.match_longest (every emitted match equals the brute-force longest previous match in the buffered data, clipped at the block end) and C12.literal_justified', dict(walks=0, go=[('parser-gsap', 300)])),
+    'C11': fam_parser('recordings: OSAP only, flags 0 mostly, blocks <= 64 bytes, buffers <= 130 bytes, several blocks per fill (edge reuse), blocks after Shrink; rule C11.cost_optimal: BlockCost = OptCost (forward DP over literal and nearest-source match edges written in TLA+)', dict(walks=0, go=[('parser-osap', 200)])),
     'C06': fam_dec('histories = random walks of Decoder.tla (API calls x writer fault schedule) + seeded Go-side histories with sizes around BufferSize-WindowSize / BufferSize, B < 2W, fault schedules and the retry protocol; C06 = no livelock / timeout event (no envelope action exists for them); liveness of the retry loops is model-checked (Terminates) on the design; non-trivial = distinct script with several flushes in one call, data larger than the free space, a refused or rejected block, or a writer fault'),
     'C07': fam_dec('same recordings as C06; rule C07.refused: without a writer fault a Decoder call may stop only at a malformed sequence; non-trivial as for C06'),
     'C18': fam_dec('same recordings as C06; rules C18.prefix (every writer call is offered exactly the continuation of the reference expansion), C18.err_is_writers, C18.exactly_once (after a fault-free Flush the sink equals the reference expansion, also after retries of Sequences[k:], Literals[l:]); non-trivial = distinct script with a writer fault, short write or fault in the middle of a block'),
